@@ -4,9 +4,9 @@
 # (VERIF_REPO), so /repo stays untouched while other checks are running from it.
 patch="$1"; wt="$2"; shift; shift
 cd "$wt" || exit 2
-git checkout -q -- . ; git clean -fdq
+git checkout -q -- .
 git apply "$patch" || { echo "patch does not apply"; exit 2; }
-trap 'git -C "$wt" checkout -q -- . ; git -C "$wt" clean -fdq' EXIT
+trap 'git -C "$wt" checkout -q -- .' EXIT
 echo "== tests: $(/venv/bin/python -m pytest -q -p no:cacheprovider 2>&1 | tail -1)"
 cd /verif
 for c in "$@"; do
